@@ -4,7 +4,12 @@
     Arch.decode_encode, Arch.encode_decode, rv32i_encode_sound, rv32i_encode_sound_defined, rv32i_encode_len,
     rv32i_fixpoint_structured, table_spec_rows, table_spec_names, table_rows_known, table_rt_rows,
     rv32i_fence_sound, fence_encode, rv32i_fixpoint_exact, encode_ne_lossy
+  MSP430 16-bit core (NakenVerif.Msp430.{Arch,Asm,Disasm,Spec,AsmProofs,AsmProps,AsmSound,DisRows,DisSound,RoundTrip,Fixpoint},
+  namespace NakenVerif.Msp430): msp430_encode_sound, msp430_optimize_only_rewrites_index0, msp430_encode_len,
+  msp430_walk_exact, msp430_fixpoint_structured (bytewise; Fixpoint.lean), arch_len, arch_reading, table_spec_rows, table_cmd_codes,
+  table_core_types, table_no_shadow, table_core_rows, table_core_names, table_dis_kinds, msp430_pcinc_counterexample
 -/
 import NakenVerif.Riscv.Props
 import NakenVerif.Riscv.RoundTrip
 import NakenVerif.Riscv.NoLossy
+import NakenVerif.Msp430.Fixpoint
